@@ -335,6 +335,51 @@ theorem combine_all_ok (fns : List StepOutcome) (h : allOk fns = true) :
     have := ih h
     simp [combineRan, combine, this]; omega
 
+/-- `Combine` nests: combining combined groups is combining the concatenation — same outcome … -/
+theorem combine_flatten (groups : List (List StepOutcome)) :
+    combine (groups.map combine) = combine groups.flatten := by
+  induction groups with
+  | nil => rfl
+  | cons g rest ih =>
+    induction g with
+    | nil => simpa [combine] using ih
+    | cons o os ihg =>
+      cases o with
+      | ok => simpa [combine] using ihg
+      | err e => simp [combine]
+      | panic v => simp [combine]
+      | panicNil => simp [combine]
+
+/-- … and the same number of leaf functions invoked (a group contributes the leaves it ran) -/
+
+theorem combineRan_append_ok (g rest : List StepOutcome) :
+    combineRan (g ++ rest) = if isOk (combine g) then combineRan g + combineRan rest else combineRan g := by
+  induction g with
+  | nil => simp [combine, combineRan, isOk]
+  | cons o os ih =>
+    cases o with
+    | ok =>
+      simp only [List.cons_append, combineRan, combine, ih]
+      by_cases h : isOk (combine os) = true <;> simp [h] <;> omega
+    | err e => simp [combine, combineRan, isOk]
+    | panic v => simp [combine, combineRan, isOk]
+    | panicNil => simp [combine, combineRan, isOk]
+
+theorem nested_ran_flatten (groups : List (List StepOutcome)) :
+    nestedRan groups = combineRan groups.flatten := by
+  induction groups with
+  | nil => rfl
+  | cons g rest ih => simp [nestedRan, List.flatten_cons, combineRan_append_ok, ih]
+
+/-- so a transaction over nested `Combine`s finishes like the transaction over the flat list -/
+theorem tx_nested_combine (c : Cfg) (commitOk : Bool) (groups : List (List StepOutcome)) (hne : groups.flatten ≠ []) :
+    (transact c true commitOk [combine (groups.map combine)]).2 = (transact c true commitOk groups.flatten).2 := by
+  rw [combine_flatten]
+  exact (combine_spec c commitOk groups.flatten hne).1
+
+example : combine ([[.ok, .ok], [.ok, .err 4, .ok], [.panic 1]].map combine) = .err 4 ∧
+    nestedRan [[.ok, .ok], [.ok, .err 4, .ok], [.panic 1]] = 4 := by decide
+
 /-! ### non-vacuity and the witness for the unrepaired detection -/
 
 example : Proved ⟨.finishedFlag, true⟩ := by decide
